@@ -167,13 +167,17 @@ pub fn run(rep: &mut Report) {
 		cover.count(
 			match case.expect {
 				Expect::Valid => "asts_valid",
+				Expect::ValidForward => "asts_valid_forward_hand_written",
 				_ => "asts_invalid_by_ast_edit",
 			},
 			1,
 		);
 		sgen::spell_and_judge(case, &plan, cover, out, &judge);
-		if case.expect != Expect::Valid {
+		if matches!(case.expect, Expect::Invalid(_)) {
 			return;
+		}
+		if case.expect == Expect::ValidForward {
+			cover.count("asts_two_pending_forward_references", 1);
 		}
 		if case.feats.shadow {
 			cover.count("asts_shadowing", 1);
@@ -184,8 +188,14 @@ pub fn run(rep: &mut Report) {
 		if case.feats.logical > 0 {
 			cover.count("asts_with_logical_types", 1);
 		}
+		if case.family.starts_with("enum0") {
+			cover.count("asts_with_empty_enum", 1);
+		}
 		for fw in sgen::derived_forward(case) {
 			cover.count("asts_forward_variants", 1);
+			if sgen::pending_at_once(&fw.ast) >= 2 {
+				cover.count("asts_forward_variants_two_pending", 1);
+			}
 			sgen::spell_and_judge(&fw, &plan, cover, out, &judge);
 		}
 		if set.derive_invalid_from(case) {
@@ -221,6 +231,8 @@ pub fn run(rep: &mut Report) {
 	for k in [
 		"valid_docs",
 		"valid_forward_docs",
+		"asts_two_pending_forward_references",
+		"asts_with_empty_enum",
 		"refs_resolved",
 		"asts_shadowing",
 		"asts_recursive",
